@@ -49,7 +49,7 @@ type WMetaFile struct {
 type WFile struct {
 	Path    string `json:"path"`
 	Content string `json:"content"`
-	Special string `json:"special,omitempty"` // "" | setuid | setgid | sticky: a regular file with that mode bit; exec: an executable file
+	Special string `json:"special,omitempty"` // "" | setuid | setgid | sticky: a regular file with that mode bit; exec: an executable file; dirlink: a symbolic link to a directory elsewhere
 }
 
 func specialMode(s string) os.FileMode {
@@ -381,6 +381,21 @@ func Materialise(w World, root string) (*Built, error) {
 		p := filepath.Join(b.ProductDir, f.Path)
 		if err := os.MkdirAll(filepath.Dir(p), 0o755); err != nil {
 			return nil, err
+		}
+		if f.Special == "dirlink" {
+			// a symbolic link to a directory that lies outside the product directory
+			target := filepath.Join(root, "elsewhere", fmt.Sprintf("%03d", len(b.stored)))
+			b.stored = append(b.stored, target)
+			if err := os.MkdirAll(target, 0o755); err != nil {
+				return nil, err
+			}
+			if err := os.WriteFile(filepath.Join(target, "inside.txt"), []byte(f.Content), 0o644); err != nil {
+				return nil, err
+			}
+			if err := os.Symlink(target, p); err != nil {
+				return nil, err
+			}
+			continue
 		}
 		if err := os.WriteFile(p, []byte(f.Content), 0o644); err != nil {
 			return nil, err
